@@ -21,7 +21,7 @@ def fieldsOf (ffs : List FlatField) : List (String × Val) :=
 
 /-- the decoded occurrences -/
 def FlatField.group (ff : FlatField) : Group :=
-  ⟨ff.m.name, ff.m.unbounded, ff.texts.map fun s => .text s ff.ty⟩
+  ⟨pyKey ff.m.name, ff.m.unbounded, ff.texts.map fun s => .text s ff.ty⟩
 
 /-- the elements written for the member -/
 def FlatField.kids (env : Env) (ff : FlatField) : List Info :=
@@ -29,6 +29,7 @@ def FlatField.kids (env : Env) (ff : FlatField) : List Info :=
 
 structure FlatOK (ffs : List FlatField) : Prop where
   names : (ffs.map (·.m.name)).Nodup
+  keys : (ffs.map fun ff => pyKey ff.m.name).Nodup      -- e.g. not both `class` and `cls`
   builtin : ∀ ff ∈ ffs, ff.m.type = .builtin ff.ty
   single : ∀ ff ∈ ffs, ff.m.unbounded = false → ff.texts.length ≤ 1
 
@@ -178,10 +179,10 @@ theorem decode_flat (env : Env) (f : Nat) (name : String) (ns : Option String) (
     simp only [pairsOf, List.map_flatMap, List.map_map, Function.comp_def]
     rfl
   have ht : (ffs.map FlatField.group).flatMap Group.triples =
-      (pairsOf ffs).map fun p => (p.1.m.name, p.1.m.unbounded, Py.text p.2 p.1.ty) := by
+      (pairsOf ffs).map fun p => (pyKey p.1.m.name, p.1.m.unbounded, Py.text p.2 p.1.ty) := by
     simp [pairsOf, FlatField.group, Group.triples, List.map_flatMap, List.flatMap_map, Function.comp_def]
   have hfold := groups_fold (ffs.map FlatField.group) []
-    (by simpa [FlatField.group, Function.comp_def] using ok.names)
+    (by simpa [FlatField.group, Function.comp_def] using ok.keys)
     (by intro g _; rfl)
     (by
       intro g hg v hv
